@@ -47,7 +47,7 @@ static void c06_run(vf_case *c)
     { const NCformat *s = D.A.Store; for (int_t k = 0; k < nnz; k++) V0[k] = P->get(s->nzval, (size_t)k); }
     vf_snap idx0; snap_sparse(P, &D.A, &idx0, NULL);
     int use_ws = rng_bool(r, 0.35); void *work = NULL;
-    if (use_ws) { D.lwork = (int_t)generous_lwork(P, n, nnz); work = malloc((size_t)D.lwork); D.work = work; }
+    if (use_ws) { D.lwork = (int_t)generous_lwork(P, n, nnz); work = vf_ws_alloc(c, (size_t)D.lwork); D.work = work; }
     superlu_options_t xo = o.opt; xo.PrintStat = NO; xo.Equil = rng_bool(r, 0.7) ? YES : NO;
     if (xo.ColPerm == MY_PERMC) rng_perm(r, D.perm_c, n);
     vf_tag(c, "prec=%c", P->letter); vf_tag(c, "%s", o.rowmajor ? "NR" : "NC"); vf_tag(c, "mem=%s", use_ws ? "workspace" : "malloc"); vf_tag(c, "equil=%d", xo.Equil == YES); if (fillflip) { vf_tag(c, "constructed=fillflip"); xo.Equil = NO; } vf_tag(c, "u=%g", xo.DiagPivotThresh); if (exactcls) { vf_tag(c, "exact-values"); xo.Equil = NO; }
